@@ -117,6 +117,15 @@ func genMC(t *rapid.T) mcCase {
 		c.Iters = rapid.IntRange(1, 6).Draw(t, "iters")
 	}
 	c.Cfgs = genCfgs(t, rapid.IntRange(6, 10).Draw(t, "ncfg"))
+	if rapid.IntRange(0, 19).Draw(t, "large") == 0 {
+		// more than 64^3 cells: the 3D filtered mesher's workers then subdivide the queued blocks again
+		c.Src = genSource3(t, []string{"csg"})
+		c.Cells = gen.F(t, 68, 90, "largecells")
+		c.Cfgs = genCfgs(t, 3)
+		if c.Iters > 2 {
+			c.Iters = 2
+		}
+	}
 	return c
 }
 
@@ -213,6 +222,16 @@ func genMS(t *rapid.T) msCase {
 		c.Iters = rapid.IntRange(1, 6).Draw(t, "iters")
 	}
 	c.Cfgs = genCfgs(t, rapid.IntRange(6, 10).Draw(t, "ncfg"))
+	if rapid.IntRange(0, 11).Draw(t, "large") == 0 {
+		// a lattice large enough (> 512 x 512 cells) for the filtered mesher to subdivide the blocks it queues a
+		// second time inside its workers: only then does the second level of its block recursion do anything
+		c.Src = genSource2(t, []string{"csg"})
+		c.Cells = gen.F(t, 540, 900, "largecells")
+		c.Cfgs = genCfgs(t, 3)
+		if c.Iters > 2 {
+			c.Iters = 2
+		}
+	}
 	for i := range c.Cfgs {
 		c.Cfgs[i].Interior = false
 	}
